@@ -17,13 +17,15 @@ from harness.C14 import oracle
 
 # theorems of Props/C14.lean; the ones in PROPS_GEN mention the regenerated configuration / tables (Gen/Int64.lean)
 PROPS_GEN = ["no_ub", "compare_mixed_correct", "compare_mixed_correct_unsigned", "compare_mixed_correct_rat", "method_tables_ok", "dispatch_left_then_reversed_right",
-             "nary_mod_is_left_fold", "nary_rows_complete"]
+             "nary_mod_is_left_fold", "nary_rows_complete", "poly_compare_correct", "compare_chain_correct", "string_entries_complete"]
 PROPS = ["wrap_ops_eq_bitvec", "wrap_ops_in_range", "shift_ops_eq_bitvec", "divf_eq_floor_div", "mod_eq_floor_mod", "trunc_div_rem_correct",
          "mod_zero_is_dividend", "div_zero_errors", "no_ub_iff_guarded", "no_ub_partial", "ub_reachable_on_pinned",
          "cmpIntDbl_is_exact", "cmpIntDbl_eq_rat", "rnd53_exact_small_monotone_edge", "compare_mixed_correct_of_inclusive", "compare_mixed_partial",
          "compare_wrong_on_pinned", "compare_ints_correct", "unwrap_range",
          "varops_are_left_folds", "nary_methods_wrap", "nary_methods_are_left_folds", "nary_mod_not_fold_on_pinned",
-         "chained_comparators_are_conjunctions", "chained_comparison_short_circuits", "poly_comparators_are_chains", "bitwise32_range_checks", "bitwise32_eq_bitvec", "num_div_is_floor_of_quotient",
+         "chained_comparators_are_conjunctions", "chained_comparison_short_circuits", "poly_comparators_are_chains",
+         "primitive_order_s64_u64_is_by_type", "string_operand_scanned", "string_digits_exact_or_rejected", "string_operands_every_entry",
+         "string_operands_handwritten", "bitwise32_range_checks", "bitwise32_eq_bitvec", "num_div_is_floor_of_quotient",
          "num_mod_zero_is_dividend", "num_mod_floor_convention", "num_rem_is_fmod", "vm_number_handlers",
          "int_to_double_exact", "to_number_round_trip", "to_bytes_round_trip"]
 # configuration-generic lemmas (audited separately when Props/C14 does not build, to show what still holds)
@@ -32,6 +34,7 @@ LEMMAS = ["opMethod_add", "opMethod_sub", "opMethod_mul", "opMethod_and", "opMet
           "ub_reachable_on_pinned", "compareInt64Double_correct", "compareInt64Double_partial", "compareUint64Double_partial", "compareMethod_ints",
           "compare_ub_on_pinned", "decode_wf", "rnd53_small", "rnd53_big", "varopFold_eq_foldl", "methodLoop_add", "methodLoop_mul",
           "methodLoop_zero_irrelevant", "methodLoop_eq_fold", "callCfunN_eq_fold", "comparatorLoop_conj", "comparatorLoop_first_failure", "compareReduce_eq_loop",
+          "callCfun2_str_ok", "callCfun2_str_err", "scanDigits_some", "scanDigits_overflow_none", "scan_results_in_range",
           "bitop32_and", "bitop32_or", "bitop32_xor", "bitop32_shl", "bitop32_sar", "bitop32_shr", "checkIntRange_iff",
           "decode_encodeInt", "unwrap_ofInt", "toNumber_eval", "toBytes_round_trip"]
 ENV = dict(os.environ, ASAN_OPTIONS="detect_leaks=0:abort_on_error=0", UBSAN_OPTIONS="print_stacktrace=0")
